@@ -40,18 +40,19 @@ type hOp struct {
 }
 
 type hScenario struct {
-	NumVb      int    `json:"numvb"`
-	Lo         int    `json:"lo"`
-	Hi         int    `json:"hi"`
-	Ops        []hOp  `json:"ops"`
-	Finite     bool   `json:"finite,omitempty"`
-	Reset      string `json:"reset,omitempty"`        // checkpoint.autoReset
-	SkipAt     int    `json:"skip_at,omitempty"`      // >0: dcp.listener.skipUntil = event time of seqno SkipAt (earlier document events are dropped)
-	MetaBucket string `json:"meta_bucket,omitempty"`  // metadata.config.bucket (couchbase metadata placed in another bucket)
-	EndOnClose bool   `json:"end_on_close,omitempty"` // the server confirms every CloseStream with STREAM_END(closed), as a real node does
-	CancelEnd  string `json:"cancel_end,omitempty"`   // C12: the history ends with a shutdown by cancel during which the server ends one stream with this transient cause
-	KeepF1     bool   `json:"keep_f1,omitempty"`      // do not exclude the known finding F1 by construction (units whose oracle is not C01's)
-	File       bool   `json:"file,omitempty"`         // real file metadata backend (whole-state writes) instead of the per-vBucket fake
+	NumVb      int        `json:"numvb"`
+	Lo         int        `json:"lo"`
+	Hi         int        `json:"hi"`
+	Ops        []hOp      `json:"ops"`
+	Finite     bool       `json:"finite,omitempty"`
+	Reset      string     `json:"reset,omitempty"`        // checkpoint.autoReset
+	SkipAt     int        `json:"skip_at,omitempty"`      // >0: dcp.listener.skipUntil = event time of seqno SkipAt (earlier document events are dropped)
+	MetaBucket string     `json:"meta_bucket,omitempty"`  // metadata.config.bucket (couchbase metadata placed in another bucket)
+	EndOnClose bool       `json:"end_on_close,omitempty"` // the server confirms every CloseStream with STREAM_END(closed), as a real node does
+	CancelEnd  string     `json:"cancel_end,omitempty"`   // C12: the history ends with a shutdown by cancel during which the server ends one stream with this transient cause
+	Pre        [][]string `json:"pre,omitempty"`          // per assigned vBucket (index): kinds of the events the server already holds when the first session opens
+	KeepF1     bool       `json:"keep_f1,omitempty"`      // do not exclude the known finding F1 by construction (units whose oracle is not C01's)
+	File       bool       `json:"file,omitempty"`         // real file metadata backend (whole-state writes) instead of the per-vBucket fake
 }
 
 // ---------- server model (survives restarts) ----------
@@ -208,6 +209,14 @@ func newSession(sc *hScenario, oracles ...string) *session {
 	s.meta = newFakeMeta()
 	for v := 0; v < sc.NumVb; v++ {
 		s.srv[uint16(v)] = &srvVb{}
+	}
+	for i, kinds := range sc.Pre {
+		if vb := sc.Lo + i; vb <= sc.Hi {
+			for j, k := range kinds {
+				seq := uint64(j + 1)
+				s.srv[uint16(vb)].hist = append(s.srv[uint16(vb)].hist, srvEvent{Seq: seq, Kind: k, Key: keyFor(k, uint16(vb), seq)})
+			}
+		}
 	}
 	s.lo, s.hi = sc.Lo, sc.Hi
 	s.meta.onWrite = s.onDurableWrite
@@ -706,10 +715,35 @@ func (s *session) rebalance(op hOp) {
 			s.label("delivered_while_rebalance_completes")
 		})
 	}
+	double := s.oracles["C16"] && ((op.N%3)+3)%3 == 0 && s.cfg.Dcp.Group.Membership.Type != "dynamic"
+	oldDelay := s.cfg.Dcp.Group.Membership.RebalanceDelay
+	if double {
+		s.cfg.Dcp.Group.Membership.RebalanceDelay = 80 * time.Millisecond
+	}
+	tReb := time.Now()
 	ok, pv := within(20*time.Second, func() { s.st.Rebalance() })
 	if !ok || pv != nil {
 		s.fail("C04", "Rebalance() did not return cleanly (returned=%v panic=%v)", ok, pv)
 		return
+	}
+	if double {
+		// a second membership notification while the reopen is still pending (the delay is 80 ms for this rebalance): it
+		// pushes the pending reopen back and is coalesced into the same rebalance
+		ok, pv := within(20*time.Second, func() { s.st.Rebalance() })
+		late := time.Since(tReb) > 30*time.Millisecond
+		s.cfg.Dcp.Group.Membership.RebalanceDelay = oldDelay
+		if !ok || pv != nil {
+			s.fail("C04", "second Rebalance() while the first is pending did not return cleanly (returned=%v panic=%v)", ok, pv)
+			return
+		}
+		if late {
+			// the harness was held up and may have missed the window: what follows would not be the history generated
+			s.label("double_trigger_late_discarded")
+			time.Sleep(500 * time.Millisecond)
+			s.stopped = true
+			return
+		}
+		s.label("rebalance_triggered_twice")
 	}
 	deadline := time.Now().Add(20 * time.Second)
 	for {
@@ -911,6 +945,9 @@ func (s *session) deliver(op hOp) {
 	sv := s.srv[m.vb]
 	var e srvEvent
 	fresh := m.sentIdx >= len(sv.hist)
+	if fresh && s.sc.Finite && len(s.sc.Pre) > 0 {
+		return // finite mode: the stream was requested up to the high seqno sampled at open; the server sends nothing beyond
+	}
 	if fresh {
 		kind := op.Kind
 		if kind == "" {
